@@ -439,6 +439,19 @@ Spans of submodels differ:
 
             return check_values
 
+        # Error if the period cannot accommodate the lags and leads of the
+        # submodels (as for a single model)
+        t_position = t
+        if t_position < 0:
+            t_position += len(self.span)
+
+        if t_position - self.lags < 0 or t_position + self.leads >= len(self.span):
+            raise IndexError(
+                f'Position `t` ({t}) cannot accommodate the lags ({self.lags}) '
+                f'and leads ({self.leads}) of the current linker instance '
+                f'({len(self.span)} periods in span)'
+            )
+
         # Error if `offset` points outside the current linker span
         if offset:
             t_check = t
